@@ -11,7 +11,7 @@ from . import common
 NPLANS = {"quick": 400, "thorough": 4000}
 RULE = (
     "plan i = H(seed,'C05',i): 1-8 valid corpus rows with 0-3 poison rows (unparsable SMILES, no '>>', 'A>B>C', "
-    "two '>>', empty side, empty string, missing value) at drawn positions; batch size in {None,1..n+1}; source in "
+    "two '>>', empty side, empty string, missing value) at drawn positions, in 20% of plans a whole batch of 2-3 poison rows aligned to the batch size (also as last batch / before a one-row remainder); batch size in {None,1..n+1}; source in "
     "{list, dict, csv, json, cli with pass-through columns}; swarm n_jobs/schedule. Non-trivial: >=1 poison row and "
     ">=1 valid row in the same run; distinct by (rows, batch size, source)."
 )
@@ -47,6 +47,22 @@ def gen_plan(base_seed, i, tier):
         kinds.append(kind)
         if rng.random() < 0.2:  # the same malformed value twice
             rows.insert(rng.randint(0, len(rows)), val)
+    aligned = None
+    if rng.random() < 0.2:
+        # a whole batch of malformed rows: a contiguous run of k poison rows starting at a multiple of k (batch size k below);
+        # with some chance the run is the LAST batch, or is followed by a partial batch of one valid row
+        k = rng.choice([2, 3])
+        start = k * rng.randint(0, len(rows) // k)
+        if rng.random() < 0.4:
+            start = k * (len(rows) // k)
+            del rows[start:]
+        for j in range(k):
+            kind = rng.choice([x for x in sorted(POISON) if x not in ("missing", "empty_record") or source not in ("list", "cli")])
+            rows.insert(start + j, rng.choice(POISON[kind]))
+            kinds.append(kind)
+        if rng.random() < 0.5 and start + k == len(rows):
+            rows.append("CCO>>CC=O")
+        aligned = k
     if source == "cli":
         # the CLI validates the first row itself (check_columns); keep a valid row first
         if not isinstance(rows[0], str) or ">>" not in rows[0] or rows[0] in sum(POISON.values(), []):
@@ -83,6 +99,8 @@ def gen_plan(base_seed, i, tier):
                         it[k2] = it.pop(k2)
     cfg = common.gen_config(rng, len(rows), thresholds=(0,))
     cfg["batch_size"] = rng.choice([None, 1, 2, 3, len(rows), len(rows) + 1, rng.randint(1, len(rows) + 1)])
+    if aligned and rng.random() < 0.75:
+        cfg["batch_size"] = aligned
     if id_col:
         cfg["id_col"] = id_col
     return {
